@@ -183,7 +183,7 @@ class VCSStrategyGit(VCSStrategy):
         result = execute_command(command, _LOGGER, cwd=cwd)
 
         if not result.returncode:
-            path = result.stdout.decode("utf-8")[:-1]
+            path = os.fsdecode(result.stdout)[:-1]
             return Path(os.path.relpath(path, cwd))
 
         return None
